@@ -129,12 +129,31 @@ def _eval_clause(text, pre_ns, post_ns):
 
 
 def main():
+    sys.setrecursionlimit(20000)
     req = json.load(open(sys.argv[1]))
+    out = attempt(req, fresh=False)
+    if out.get('precondition_holds') is False:
+        # the solver's receiver state violates a (quantified) precondition the ground query did not see: keep the
+        # solver's ARGUMENTS and take a receiver built by the class's own constructor, if it has a default one
+        out2 = attempt(req, fresh=True)
+        if out2 is not None and out2.get('precondition_holds'):
+            out2['receiver'] = 'default-constructed (the counter-model\'s receiver state did not satisfy the precondition)'
+            out = out2
+    print(json.dumps(out))
+
+
+def attempt(req, fresh):
     mod = importlib.import_module(req['module'])
     cls = getattr(mod, req['cls'])
-    obj = cls.__new__(cls)
-    for k, v in req['fields'].items():
-        setattr(obj, k, dec(v))
+    if fresh:
+        try:
+            obj = cls()
+        except Exception:  # noqa
+            return None
+    else:
+        obj = cls.__new__(cls)
+        for k, v in req['fields'].items():
+            setattr(obj, k, dec(v))
     args = {k: dec(v) for k, v in req['args'].items()}
     pre_obj = copy.deepcopy(obj)
     pre_args = copy.deepcopy(args)
@@ -167,13 +186,13 @@ def main():
         outcome = 'raise:' + type(ex).__name__
     pre_ns = dict(spec_ns, self=pre_obj, **pre_args)
     post_ns = dict(spec_ns, self=obj, result=result, **pre_args)
-    out = dict(outcome=outcome, result=enc(result), post_fields={k: enc(v) for k, v in vars(obj).items()},
+    out = dict(outcome=outcome, result=enc(result), pre_fields={k: enc(v) for k, v in vars(pre_obj).items()},
+               post_fields={k: enc(v) for k, v in vars(obj).items()},
                clauses=[], raises=[], failed=[])
     try:
         pre_ok = all(eval_clause(r, pre_ns, pre_ns) for r in c.requires)
     except Unsupported as u:
-        print(json.dumps(dict(unsupported=str(u))))
-        return
+        return dict(unsupported=str(u))
     out['precondition_holds'] = bool(pre_ok)
     try:
         for kind, cond in c.raises.items():
@@ -191,9 +210,8 @@ def main():
                 if not ok:
                     out['failed'].append(f'ensures[{i}]: {cl}')
     except Unsupported as u:
-        print(json.dumps(dict(unsupported=str(u))))
-        return
-    print(json.dumps(out))
+        return dict(unsupported=str(u))
+    return out
 
 
 if __name__ == '__main__':
